@@ -126,7 +126,7 @@ def run(tier, rep, replay=None):
 
 
 MANIFEST = {
- "text": "H2CJob.tla is RFC 9380 hash_to_curve for P256_XMD:SHA-256_SSWU_RO_, P384_XMD:SHA-384_SSWU_RO_, P521_XMD:SHA-512_SSWU_RO_ and BLS12381G1_XMD:SHA-256_SSWU_RO_ (the latter with the 11-isogeny evaluated by Horner's rule, projective addition / doubling on y^2 = x^3 + 4 and multiplication by h_eff one action per bit; hash_to_field reduction, simplified SWU with inv0 and square root as exponentiations one action per bit, sgn0, affine point addition; Barrett arithmetic on base-4096 digits, constants checked by ASSUME) with which - together with ExpanderJobs.tla for expand_message_xmd - TLC recomputes group.HashToElement (the HashToGroup of the RFC 9497 suites) and bls12381.G1.Hash (the message hash of BLS signatures in G1) for sampled messages and domain-separation tags incl. over-long and empty tags, after reproducing RFC 9380 J.1.1 and refusing a falsified point; G2HashJob.tla is the same for BLS12381G2_XMD:SHA-256_SSWU_RO_ over Fp2 (inverse and square root through the norm, sgn0 of Fp2, the 3-isogeny, multiplication by the 636-bit h_eff; about 10 minutes per call, thorough tier). R255Job.tla is hash_to_ristretto255 (RFC 9380 appendix B: the one-way map of RFC 9496 4.3.4 with SQRT_RATIO_M1 on both halves, complete addition, the encoding of 4.3.2; constants checked against their defining equations). Oprf.tla checks the algebra of OPRF/POPRF blinding, DLEQ and Schnorr completeness, DLEQ algebraic soundness (a false statement fits at most one challenge) and OT key agreement for ALL keys, blinds and inputs of a toy prime-order group; QnDleq.tla (N=77) shows completeness and that a verifier taking the security parameter from the proof accepts (Z, C=0, parameter 0) for every statement. The driver runs all four suites x three modes (derived and random keys, batches of 1-4, input lengths 0..65535, structured blinds 1 / order-1 / random, batch-of-one consistency, FullEvaluate and VerifyFinalize) and every alteration site (evaluated element changed / swapped / identity, proof c or s bit-flipped or zeroed, other key, other info, other blinded elements), DLEQ batch proofs, Schnorr proofs and Qn-DLEQ proofs with every statement / proof / context alteration and degenerate assembly (zero challenge, zero response, identity elements, prover-chosen parameter, proof made for another key), and both OT choice bits incl. decrypting the other ciphertext with the derived key; TLC judges the recorded outcomes against ProofVerdict.tla.",
+ "text": "H2CJob.tla is RFC 9380 hash_to_curve for P256_XMD:SHA-256_SSWU_RO_, P384_XMD:SHA-384_SSWU_RO_, P521_XMD:SHA-512_SSWU_RO_ and BLS12381G1_XMD:SHA-256_SSWU_RO_ (the latter with the 11-isogeny evaluated by Horner's rule, projective addition / doubling on y^2 = x^3 + 4 and multiplication by h_eff one action per bit; hash_to_field reduction, simplified SWU with inv0 and square root as exponentiations one action per bit, sgn0, affine point addition; Barrett arithmetic on base-4096 digits, constants checked by ASSUME) with which - together with ExpanderJobs.tla for expand_message_xmd - TLC recomputes group.HashToElement (the HashToGroup of the RFC 9497 suites) and bls12381.G1.Hash (the message hash of BLS signatures in G1) for sampled messages and domain-separation tags incl. over-long and empty tags, after reproducing RFC 9380 J.1.1 and refusing a falsified point; G2HashJob.tla is the same for BLS12381G2_XMD:SHA-256_SSWU_RO_ over Fp2 (inverse and square root through the norm, sgn0 of Fp2, the 3-isogeny, multiplication by the 636-bit h_eff; about 10 minutes per call, thorough tier). R255Job.tla is hash_to_ristretto255 (RFC 9380 appendix B: the one-way map of RFC 9496 4.3.4 with SQRT_RATIO_M1 on both halves, complete addition, the encoding of 4.3.2; constants checked against their defining equations). Oprf.tla checks the algebra of OPRF/POPRF blinding, DLEQ and Schnorr completeness, DLEQ algebraic soundness (a false statement fits at most one challenge) and OT key agreement for ALL keys, blinds and inputs of a toy prime-order group; QnDleq.tla (N=77) shows completeness and that a verifier taking the security parameter from the proof accepts (Z, C=0, parameter 0) for every statement. The driver runs all four suites x three modes (derived and random keys, batches of 1-4, input lengths 0..65535, structured blinds 1 / order-1 / random, batch-of-one consistency, FullEvaluate and VerifyFinalize) and every alteration site (evaluated element changed / swapped / identity, proof c or s bit-flipped or zeroed, other key, other info, other blinded elements), DLEQ batch proofs, Schnorr proofs and Qn-DLEQ proofs with every statement / proof / context alteration and degenerate assembly (zero challenge, zero response, identity elements, prover-chosen parameter, proof made for another key), and both OT choice bits incl. decrypting the other ciphertext with the derived key; TLC judges the recorded outcomes against ProofVerdict.tla. Further alteration sites: proof-nil, proof-trailing, zero-blind, statement-negated, statement-oversize, unequal OT ciphertext lengths; the honest Schnorr proof must satisfy the verification equation for the challenge the driver computes from the documented transcript.",
  "note": "Seeded random keys / inputs (2 repetitions per suite and mode in quick, 20 in thorough).",
  "technique": "TLC exhaustive check of protocol algebra on toy groups + alteration-site scenarios replayed on real code + TLC judgement of recorded outcomes",
 }
